@@ -11,7 +11,7 @@ def nontrivial(beh):
 
 
 def gen_consts(steps, runs, **over):
-    c = dict(InCalls=[('ia1', 1), ('ia2', 1)], OutAliases=['oa1'], Vals=['v1'], Excs=['E1'],
+    c = dict(InCalls=[('ia1', 1), ('ia2', 2)], OutAliases=['oa1'], Vals=['v1'], Excs=['E1'],
              InFaults=['none', 'keyFail', 'prepFail'], OutFaults=['none'],
              Bodies=['plain', 'interrupt', 'forces', 'discards'], OutResults=[('val', 'v1'), ('int', 'BI')],
              Ctl=['discard', 'force'], Ends=['ret', 'raise', 'interrupt'],
@@ -43,7 +43,7 @@ def run(rep, tier, seed):
                                                 Ends=['ret'], Modes=['free'], PlayFaults=[], Draws=['low'],
                                                 OutResults=[('val', 'v1')]),
                          cassettes=('memory',), n_conc=1, sample=2500, cap=4000)
-            chk.generate('gen3runs', gen_consts(1, 3, InCalls=[('ia2', 1)], InFaults=['none', 'prepFail'],
+            chk.generate('gen3runs', gen_consts(1, 3, InCalls=[('ia2', 2)], InFaults=['none', 'prepFail'],
                                                 Bodies=['plain', 'interrupt', 'forces'], Ctl=['discard'],
                                                 Classes=[K('K2', rate='frac')], SaveFails=[False], Ends=['ret'],
                                                 Modes=['free'], PlayFaults=['raise']),
